@@ -373,7 +373,7 @@ def outcomes(an, f, start, env, stop_at_loop=True):
         seen.add(i)
         n = c.nodes[i]
         if n.kind == 'test':
-            v = eval_atom(n.ast, env)
+            v = eval_cond(f, n.ast, env)
             if v is UNKNOWN:
                 stack.extend(s for s in c.succ[i]
                              if (i, s) not in c.exc_edges)
@@ -592,4 +592,301 @@ def template_sites(f, pattern=None):
             skip.add(id(y))
         if pattern is None or _re.search(pattern, t[0]):
             out.append((x, t[0], t[1]))
+    return out
+
+
+# ------------------------------------------------ canonical forms, conditions
+def canon(f, e, depth=4, paths_only=False):
+    """Source text of e with single-binding locals replaced by what they
+    stand for: the same text whether or not a sub-expression was first
+    stored in a local."""
+    if f is not None:
+        e = substitute_locals(f, e, depth, paths_only=paths_only)
+    return ' '.join(src(e).split())
+
+
+def _parse_expr(text):
+    return ast.parse(text, mode='eval').body
+
+
+def cond_tree(e, f=None):
+    """Boolean structure of a condition over canonical atoms:
+    ('and'|'or', [kids]) / ('not', kid) / ('atom', text) / ('const', bool).
+    Equivalent spellings share atoms: `a != b` is not(a == b), `x not in y`
+    is not(x in y), `isinstance(x, (A, B))` is an `or`, `x in ('a', 'b')` is
+    an `or` of equalities, `x.startswith(('a', 'b'))` likewise, `a >= b` is
+    not(a < b), `x in d.keys()` is `x in d`, bool(x) is x."""
+    def atom(x):
+        return ('atom', canon(f, x))
+
+    def eq(a, b):
+        return ('atom', '%s == %s' % tuple(sorted((canon(f, a),
+                                                   canon(f, b)))))
+
+    def lt(a, b):
+        return ('atom', '%s < %s' % (canon(f, a), canon(f, b)))
+
+    if isinstance(e, ast.Constant) and isinstance(e.value, bool):
+        return ('const', e.value)
+    if isinstance(e, ast.BoolOp):
+        return ('and' if isinstance(e.op, ast.And) else 'or',
+                [cond_tree(v, f) for v in e.values])
+    if isinstance(e, ast.UnaryOp) and isinstance(e.op, ast.Not):
+        return ('not', cond_tree(e.operand, f))
+    if isinstance(e, ast.Compare):
+        parts = []
+        left = e.left
+        for op, right in zip(e.ops, e.comparators):
+            if isinstance(op, ast.Eq):
+                t = eq(left, right)
+            elif isinstance(op, ast.NotEq):
+                t = ('not', eq(left, right))
+            elif isinstance(op, (ast.In, ast.NotIn)):
+                r = right
+                if isinstance(r, ast.Call) and \
+                        isinstance(r.func, ast.Attribute) and \
+                        r.func.attr == 'keys' and not r.args:
+                    r = r.func.value
+                if isinstance(r, (ast.Tuple, ast.List, ast.Set)) and \
+                        r.elts and all(isinstance(x, ast.Constant)
+                                       for x in r.elts):
+                    t = ('or', [eq(left, x) for x in r.elts])
+                else:
+                    t = ('atom', '%s in %s' % (canon(f, left), canon(f, r)))
+                if isinstance(op, ast.NotIn):
+                    t = ('not', t)
+            elif isinstance(op, (ast.Is, ast.IsNot)):
+                t = ('atom', '%s is %s' % (canon(f, left), canon(f, right)))
+                if isinstance(op, ast.IsNot):
+                    t = ('not', t)
+            elif isinstance(op, ast.Lt):
+                t = lt(left, right)
+            elif isinstance(op, ast.Gt):
+                t = lt(right, left)
+            elif isinstance(op, ast.LtE):
+                t = ('not', lt(right, left))
+            elif isinstance(op, ast.GtE):
+                t = ('not', lt(left, right))
+            else:
+                t = atom(ast.Compare(left=left, ops=[op],
+                                     comparators=[right]))
+            parts.append(t)
+            left = right
+        return parts[0] if len(parts) == 1 else ('and', parts)
+    if isinstance(e, ast.Call):
+        fn = src(e.func)
+        if fn == 'bool' and len(e.args) == 1 and not e.keywords:
+            return cond_tree(e.args[0], f)
+        if fn == 'isinstance' and len(e.args) == 2 and \
+                isinstance(e.args[1], ast.Tuple):
+            return ('or', [('atom', 'isinstance(%s, %s)' % (
+                canon(f, e.args[0]), canon(f, k))) for k in e.args[1].elts])
+        if isinstance(e.func, ast.Attribute) and \
+                e.func.attr in ('startswith', 'endswith') and \
+                len(e.args) == 1 and isinstance(e.args[0], ast.Tuple):
+            return ('or', [('atom', '%s.%s(%s)' % (
+                canon(f, e.func.value), e.func.attr, canon(f, k)))
+                for k in e.args[0].elts])
+    if isinstance(e, ast.Name) and f is not None and \
+            e.id not in f.params:
+        v = chained_assign_value(f, e.id)
+        if v is not None and not isinstance(v, ast.Lambda):
+            return cond_tree(v, f)
+    return atom(e)
+
+
+def _tree_atoms(t, out):
+    if t[0] == 'atom':
+        out.add(t[1])
+    elif t[0] == 'not':
+        _tree_atoms(t[1], out)
+    elif t[0] in ('and', 'or'):
+        for k in t[1]:
+            _tree_atoms(k, out)
+    return out
+
+
+def _tree_eval(t, env):
+    if t[0] == 'atom':
+        return env[t[1]]
+    if t[0] == 'const':
+        return t[1]
+    if t[0] == 'not':
+        return not _tree_eval(t[1], env)
+    if t[0] == 'and':
+        return all(_tree_eval(k, env) for k in t[1])
+    return any(_tree_eval(k, env) for k in t[1])
+
+
+def cond_equiv(f, a, b, max_atoms=12):
+    """Are the two conditions (AST nodes or source texts) equivalent as
+    boolean functions of their canonical atoms?  Exhaustive truth table."""
+    import itertools
+    ta = cond_tree(_parse_expr(a) if isinstance(a, str) else a, f)
+    tb = cond_tree(_parse_expr(b) if isinstance(b, str) else b, f)
+    atoms = sorted(_tree_atoms(ta, set()) | _tree_atoms(tb, set()))
+    if len(atoms) > max_atoms:
+        return ta == tb
+    for vals in itertools.product((False, True), repeat=len(atoms)):
+        env = dict(zip(atoms, vals))
+        if _tree_eval(ta, env) != _tree_eval(tb, env):
+            return False
+    return True
+
+
+# ------------------------------------------------------ path-sensitive guards
+def guard_paths(an, f, targets, limit=20000):
+    """Acyclic normal-flow paths of f's CFG from the entry to any node id in
+    `targets`.  Each path is the list of decisions taken on it:
+    (resolved atom AST, polarity, test node), where an atom that is a plain
+    local flag is resolved to the expression last assigned to it *on that
+    path* (so `ok = a in b ... if not ok: raise` reads as `a in b` False)."""
+    c = an.cfg(f)
+    targets = set(targets)
+    out = []
+    count = [0]
+
+    def walk(i, seen, env, lits):
+        count[0] += 1
+        if count[0] > limit:
+            raise AnalysisError('guard_paths: more than %d steps in %s' % (
+                limit, f.qname))
+        if i in targets:
+            out.append(list(lits))
+            return
+        n = c.nodes[i]
+        if n.kind == 'done' and isinstance(n.ast, ast.Assign) and \
+                len(n.ast.targets) == 1 and \
+                isinstance(n.ast.targets[0], ast.Name):
+            env = dict(env)
+            env[n.ast.targets[0].id] = n.ast.value
+        for s in c.succ[i]:
+            if (i, s) in c.exc_edges or s in seen:
+                continue
+            if n.kind == 'test':
+                pol = s in c.branch(n, True)
+                atom = n.ast
+                hops = 0
+                while isinstance(atom, ast.Name) and atom.id in env and \
+                        hops < 4:
+                    atom = env[atom.id]
+                    hops += 1
+                walk(s, seen | {s}, env, lits + [(atom, pol, n)])
+            else:
+                walk(s, seen | {s}, env, lits)
+
+    walk(c.entry, {c.entry}, {}, [])
+    return out
+
+
+def positive_compare(atom, polarity):
+    """The comparison that holds on a path where `atom` evaluated to
+    `polarity`: (`a in b`, False) is `a not in b`.  None if atom is not a
+    single comparison (possibly under `not`)."""
+    while isinstance(atom, ast.UnaryOp) and isinstance(atom.op, ast.Not):
+        atom, polarity = atom.operand, not polarity
+    if not (isinstance(atom, ast.Compare) and len(atom.ops) == 1):
+        return None
+    if polarity:
+        return atom
+    flip = {ast.Eq: ast.NotEq, ast.NotEq: ast.Eq, ast.In: ast.NotIn,
+            ast.NotIn: ast.In, ast.Is: ast.IsNot, ast.IsNot: ast.Is,
+            ast.Lt: ast.GtE, ast.GtE: ast.Lt, ast.Gt: ast.LtE,
+            ast.LtE: ast.Gt}
+    t = type(atom.ops[0])
+    if t not in flip:
+        return None
+    new = ast.Compare(left=atom.left, ops=[flip[t]()],
+                      comparators=atom.comparators)
+    return ast.copy_location(new, atom)
+
+
+# ------------------------------------- three-valued evaluation of conditions
+def _canon_key(f, key):
+    """Canonical spelling of an environment key (a source text)."""
+    cache = getattr(f, '_ckeys', None) if f is not None else None
+    if cache is None:
+        cache = {}
+        if f is not None:
+            f._ckeys = cache
+    if key in cache:
+        return cache[key]
+    out = key
+    try:
+        t = cond_tree(_parse_expr(key), f)
+        if t[0] == 'atom':
+            out = t[1]
+    except SyntaxError:
+        pass
+    cache[key] = out
+    return out
+
+
+def eval_cond(f, e, env):
+    """Value of the condition e under env, or UNKNOWN.  env maps source
+    texts to Python values; both the keys and e are brought to the canonical
+    atoms of cond_tree first, so that a local that caches a sub-expression,
+    `isinstance(x, (A, B))`, `not in` ... evaluate like the plain spelling."""
+    v = eval_atom(e, env)
+    if v is not UNKNOWN:
+        return v
+    cenv = {}
+    for k, val in env.items():
+        if isinstance(k, str):
+            cenv[_canon_key(f, k)] = val
+    cenv.update({k: v_ for k, v_ in env.items() if k not in cenv})
+
+    def ev(t):
+        if t[0] == 'const':
+            return t[1]
+        if t[0] == 'atom':
+            if t[1] in cenv:
+                return bool(cenv[t[1]])
+            try:
+                r = eval_atom(_parse_expr(t[1]), cenv)
+            except SyntaxError:
+                return UNKNOWN
+            return r if r is UNKNOWN else bool(r)
+        if t[0] == 'not':
+            r = ev(t[1])
+            return r if r is UNKNOWN else not r
+        vals = [ev(k) for k in t[1]]
+        if t[0] == 'and':
+            if any(x is False for x in vals):
+                return False
+            return UNKNOWN if any(x is UNKNOWN for x in vals) else True
+        if any(x is True for x in vals):
+            return True
+        return UNKNOWN if any(x is UNKNOWN for x in vals) else False
+    try:
+        return ev(cond_tree(e, f))
+    except (TypeError, ValueError):
+        return UNKNOWN
+
+
+def cond_branches(an, f, match, value):
+    """CFG nodes reached when the condition described by `match` evaluates
+    to `value`.  `match` is applied to the canonical positive atom of every
+    test (see cond_tree): an exact text, a compiled regex or a predicate.
+    `x not in y` False and `x in y` True are the same branch; so are a test
+    on a local that caches the expression and a test on the expression."""
+    import re as _re
+    c = an.cfg(f)
+
+    def hit(text):
+        if isinstance(match, str):
+            return text == _canon_key(f, match)
+        if isinstance(match, _re.Pattern):
+            return bool(match.search(text))
+        return bool(match(text))
+    out = []
+    for n in c.nodes.values():
+        if n.kind != 'test':
+            continue
+        t = cond_tree(n.ast, f)
+        pol = True
+        while t[0] == 'not':
+            t, pol = t[1], not pol
+        if t[0] == 'atom' and hit(t[1]):
+            out.extend(c.branch(n, value if pol else not value))
     return out
